@@ -406,8 +406,15 @@ def _seg_literal_id(call):
         t = call.args[0]
         while isinstance(t, ast.BinOp):
             t = t.left
+        # 'AK1*{}*{}'.format(..) and f'AK1*{a}*{b}' start with the same literal
+        if isinstance(t, ast.Call) and isinstance(t.func, ast.Attribute) and t.func.attr == 'format' and A.is_str(t.func.value):
+            t = t.func.value
+        if isinstance(t, ast.JoinedStr) and t.values and isinstance(t.values[0], ast.Constant):
+            t = t.values[0]
         if A.is_str(t):
-            return t.value.split('*')[0]
+            sid = t.value.split('*')[0]
+            if sid and '{' not in sid and '%' not in sid:
+                return sid
     return None
 
 
